@@ -378,9 +378,10 @@ func (f *Frame) edge(in map[*ssa.BasicBlock][]edgeIn, from, to *ssa.BasicBlock, 
 type havocTarget struct {
 	heap string
 	key  string // "" = every key
+	cond string // "" = unconditional; else the write happens only if cond holds
 }
 
-func (f *Frame) loopTargets(li *loopInfo) ([]havocTarget, bool) {
+func (f *Frame) loopTargets(li *loopInfo, cur *State) ([]havocTarget, bool) {
 	c := f.c
 	var out []havocTarget
 	all := false
@@ -406,22 +407,22 @@ func (f *Frame) loopTargets(li *loopInfo) ([]havocTarget, bool) {
 			ft := st.Underlying().(*types.Struct).Field(a.Field).Type()
 			if isStruct(ft) {
 				// store of whole nested struct: havoc all its field heaps
-				c.structHeaps(ft, func(h string) { out = append(out, havocTarget{h, ""}) })
+				c.structHeaps(ft, func(h string) { out = append(out, havocTarget{h, "", ""}) })
 				return
 			}
 			h, _ := c.fieldHeap(st, a.Field)
 			if _, isAlloc := a.X.(*ssa.Alloc); isAlloc && !outside(a.X) {
 				// object allocated inside the loop: fresh each iteration
-				out = append(out, havocTarget{h, ""})
+				out = append(out, havocTarget{h, "", ""})
 				return
 			}
 			if outside(a.X) {
 				if v := f.val(a.X); v.T != "" {
-					out = append(out, havocTarget{h, v.T})
+					out = append(out, havocTarget{h, v.T, ""})
 					return
 				}
 			}
-			out = append(out, havocTarget{h, ""})
+			out = append(out, havocTarget{h, "", ""})
 		case *ssa.IndexAddr:
 			var elem types.Type
 			switch u := a.X.Type().Underlying().(type) {
@@ -438,14 +439,14 @@ func (f *Frame) loopTargets(li *loopInfo) ([]havocTarget, bool) {
 			if outside(a.X) {
 				v := f.val(a.X)
 				if _, isSl := a.X.Type().Underlying().(*types.Slice); isSl && v.T != "" {
-					out = append(out, havocTarget{h, "(sl.base " + v.T + ")"})
+					out = append(out, havocTarget{h, "(sl.base " + v.T + ")", ""})
 					return
 				} else if v.T != "" {
-					out = append(out, havocTarget{h, v.T})
+					out = append(out, havocTarget{h, v.T, ""})
 					return
 				}
 			}
-			out = append(out, havocTarget{h, ""})
+			out = append(out, havocTarget{h, "", ""})
 		case *ssa.Alloc:
 			et := a.Type().(*types.Pointer).Elem()
 			key := ""
@@ -457,14 +458,14 @@ func (f *Frame) loopTargets(li *loopInfo) ([]havocTarget, bool) {
 				if key != "" {
 					out = append(out, c.objTargets(key, et)...)
 				} else {
-					c.structHeaps(et, func(h string) { out = append(out, havocTarget{h, ""}) })
+					c.structHeaps(et, func(h string) { out = append(out, havocTarget{h, "", ""}) })
 				}
 			case *types.Array:
 				h, _ := c.memHeap(u.Elem())
-				out = append(out, havocTarget{h, key})
+				out = append(out, havocTarget{h, key, ""})
 			default:
 				h, _ := c.cellHeap(et)
-				out = append(out, havocTarget{h, key})
+				out = append(out, havocTarget{h, key, ""})
 			}
 		case *ssa.Global:
 			all = true
@@ -475,7 +476,7 @@ func (f *Frame) loopTargets(li *loopInfo) ([]havocTarget, bool) {
 				return
 			}
 			h, _ := c.cellHeap(et)
-			out = append(out, havocTarget{h, f.val(a).T})
+			out = append(out, havocTarget{h, f.val(a).T, ""})
 		default:
 			// pointer value (parameter, phi, load...)
 			et, ok := addr.Type().Underlying().(*types.Pointer)
@@ -492,14 +493,14 @@ func (f *Frame) loopTargets(li *loopInfo) ([]havocTarget, bool) {
 				if key != "" {
 					out = append(out, c.objTargets(key, et.Elem())...)
 				} else {
-					c.structHeaps(et.Elem(), func(h string) { out = append(out, havocTarget{h, ""}) })
+					c.structHeaps(et.Elem(), func(h string) { out = append(out, havocTarget{h, "", ""}) })
 				}
 			case *types.Array:
 				h, _ := c.memHeap(u.Elem())
-				out = append(out, havocTarget{h, key})
+				out = append(out, havocTarget{h, key, ""})
 			default:
 				h, _ := c.cellHeap(et.Elem())
-				out = append(out, havocTarget{h, key})
+				out = append(out, havocTarget{h, key, ""})
 			}
 		}
 	}
@@ -515,9 +516,9 @@ func (f *Frame) loopTargets(li *loopInfo) ([]havocTarget, bool) {
 				if outside(x.Map) {
 					key = f.val(x.Map).T
 				}
-				out = append(out, havocTarget{d, key}, havocTarget{v, key})
+				out = append(out, havocTarget{d, key, ""}, havocTarget{v, key, ""})
 			case *ssa.Alloc, *ssa.MakeSlice, *ssa.MakeMap, *ssa.MakeClosure, *ssa.MakeInterface:
-				out = append(out, havocTarget{allocHeap, ""})
+				out = append(out, havocTarget{allocHeap, "", ""})
 				if a, ok := x.(*ssa.Alloc); ok {
 					// zero-initialisation writes
 					addrTargets(a, nil)
@@ -527,13 +528,13 @@ func (f *Frame) loopTargets(li *loopInfo) ([]havocTarget, bool) {
 					_ = h // fresh base: only garbage locations change
 				}
 			case ssa.CallInstruction:
-				ts, a := f.callTargets(x, outside)
+				ts, a := f.callTargets(x, outside, cur)
 				out = append(out, ts...)
 				if a {
 					all = true
 				}
 			case *ssa.Next, *ssa.Range:
-				out = append(out, havocTarget{"$iter", ""})
+				out = append(out, havocTarget{"$iter", "", ""})
 			}
 		}
 	}
@@ -581,8 +582,21 @@ func (f *Frame) applyHavoc(st *State, targets []havocTarget, all bool, guard str
 	// group by heap
 	byHeap := map[string][]string{}
 	whole := map[string]bool{}
+	condOf := map[string]string{}
 	var order []string
 	for _, t := range targets {
+		if t.key != "" {
+			ck := t.heap + "\x00" + t.key
+			if prev, seen := condOf[ck]; seen {
+				if prev != "" && t.cond != "" {
+					condOf[ck] = or(prev, t.cond)
+				} else {
+					condOf[ck] = ""
+				}
+			} else {
+				condOf[ck] = t.cond
+			}
+		}
 		if _, ok := byHeap[t.heap]; !ok && !whole[t.heap] {
 			order = append(order, t.heap)
 		}
@@ -623,7 +637,11 @@ func (f *Frame) applyHavoc(st *State, targets []havocTarget, all bool, guard str
 		for _, k := range byHeap[h] {
 			fv := c.fresh("hv")
 			c.declConst(fv, es)
-			t = "(store " + t + " " + k + " " + q(fv) + ")"
+			nv := q(fv)
+			if cd := condOf[h+"\x00"+k]; cd != "" {
+				nv = ite(cd, nv, "(select "+cur+" "+k+")")
+			}
+			t = "(store " + t + " " + k + " " + nv + ")"
 		}
 		c.heapSet(st, h, t)
 	}
@@ -654,7 +672,7 @@ func (f *Frame) enterLoop(li *loopInfo, cur *State, phiVals map[*ssa.Phi]string)
 	}
 	f.checkInvariants(li, cur, "entry", token.NoPos)
 	// 2. havoc
-	targets, all := f.loopTargets(li)
+	targets, all := f.loopTargets(li, cur)
 	hs := cur.clone()
 	f.applyHavoc(hs, targets, all, f.curGuard)
 	var phis []*ssa.Phi
